@@ -17,7 +17,7 @@ const (
 	posTolX = 10.0 // "same position": x differs by at most 10 pt
 )
 
-// documented page-number patterns (digits normalized to '#'), layout.isPageNumberPattern's comment list
+// documented page-number patterns (digits normalized to '#'), the comment list of layout.isPageNumberPattern
 var pagePatterns = []string{"#", "page #", "- # -", "# of #", "page # of #", "#/#", "p. #", "p.#", "pg #", "pg. #"}
 
 // lline is one logical line of a generated document (= one shown string = one text fragment).
@@ -26,14 +26,15 @@ type lline struct {
 	text  string
 	x, y  float64 // baseline origin, PDF user space (y grows upwards)
 	h     float64 // font size = fragment height
-	class string  // hdr-same | hdr-odd | hdr-even | hdr-diff | hdr-sub | hdr-numbered | ftr | body | body-rep | body-num | body-num-near | body-rep-band
+	class string  // hdr-same | hdr-odd | hdr-even | hdr-diff | hdr-sub | hdr-numbered | pagenum | body | body-rep | body-hdrtext | body-num | body-num-near | body-rep-band | body-rep-moving
 	page  int     // 0-based
 }
 
 type ldoc struct {
-	P      int
-	PW, PH float64
-	pages  [][]lline // top-down order on each page
+	P     int
+	PW    float64
+	PHs   []float64 // page heights
+	pages [][]lline // top-down order on each page
 }
 
 func (d *ldoc) all() []lline {
@@ -73,9 +74,9 @@ func isPagePattern(text string) bool {
 }
 
 // side says in which margin band the line lies ("" = body band). A fragment lies in a band when any
-// part of its box [y, y+h] is closer than 72 pt to that page edge (weakest reading of "lies in").
+// part of its box [y, y+h] is closer than 72 pt to that edge of its page (weakest reading of "lies in").
 func (d *ldoc) side(l lline) string {
-	if d.PH-(l.y+l.h) < bandPt {
+	if d.PHs[l.page]-(l.y+l.h) < bandPt {
 		return "top"
 	}
 	if l.y < bandPt {
@@ -86,7 +87,7 @@ func (d *ldoc) side(l lline) string {
 
 func (d *ldoc) edgeDist(l lline, side string) float64 {
 	if side == "top" {
-		return d.PH - (l.y + l.h)
+		return d.PHs[l.page] - (l.y + l.h)
 	}
 	return l.y
 }
@@ -141,7 +142,10 @@ func (d *ldoc) mustDelete(l lline, mode string) bool {
 	switch l.class {
 	case "hdr-same":
 		return mode == "headers" || mode == "both"
-	case "ftr":
+	case "pagenum": // the running page number: a footer when printed at the bottom, part of the header when printed at the top
+		if d.side(l) == "top" {
+			return mode == "headers" || mode == "both"
+		}
 		return mode == "footers" || mode == "both"
 	}
 	return false
@@ -150,7 +154,27 @@ func (d *ldoc) mustDelete(l lline, mode string) bool {
 // ---- generator ---------------------------------------------------------------------------------
 
 var hdrKinds = []string{"none", "same", "oddeven", "different", "same+sub", "numbered"}
-var ftrKinds = []string{"none", "n", "Page_n", "n_of_N", "-_n_-"}
+
+type pnKind struct{ style, pos string }
+
+// pnKinds: page-number styles x where they are printed (bottom band = footer, top band = above the header).
+// quick: the four styles of the design; thorough adds the other documented patterns.
+func pnKinds(thorough bool) []pnKind {
+	styles := []string{"n", "Page_n", "n_of_N", "-_n_-"}
+	if thorough {
+		styles = append(styles, "Page_n_of_N", "n/N", "p._n", "pg_n")
+	}
+	o := []pnKind{{"none", "-"}}
+	for _, pos := range []string{"bottom", "top"} {
+		for i, st := range styles {
+			if !thorough && pos == "top" && i >= 2 {
+				continue // quick: only "n" and "Page n" are also printed at the top
+			}
+			o = append(o, pnKind{st, pos})
+		}
+	}
+	return o
+}
 
 type bodyKind struct {
 	name string
@@ -158,14 +182,14 @@ type bodyKind struct {
 }
 
 func bodyKinds() []bodyKind {
-	o := []bodyKind{{"unique", 0}, {"repeated", 0}, {"numeric", 0}}
+	o := []bodyKind{{"unique", 0}, {"repeated", 0}, {"header-text", 0}, {"numeric", 0}}
 	for _, off := range []int{72, 80, 101} {
 		o = append(o, bodyKind{"numeric-near-bottom", off})
 	}
 	for _, off := range []int{72, 80, 101} {
 		o = append(o, bodyKind{"numeric-near-top", off})
 	}
-	o = append(o, bodyKind{"rep-band-top", 0}, bodyKind{"rep-band-bottom", 0})
+	o = append(o, bodyKind{"rep-band-top", 0}, bodyKind{"rep-band-bottom", 0}, bodyKind{"rep-band-moving", 0})
 	return o
 }
 
@@ -174,10 +198,13 @@ var animals = []string{"Aardvark", "Baboon", "Cheetah", "Dingo", "Egret", "Ferre
 const (
 	fontSz  = 12.0
 	hdrX    = 72.0
-	ftrX    = 290.0
+	ftrX    = 72.0 // left-aligned with the body: tabula's column detection loses centred lone page numbers even without exclusion (not this property)
 	hdrDist = 30.0 // top edge of the header line is 30 pt below the page top
 	subDist = 46.0
+	pnDist  = 14.0 // a page number printed at the top sits above the header line
 	ftrY    = 36.0
+	runHdr  = "Running Title Alpha"
+	repLine = "Confidential Draft Zulu"
 )
 
 func footerText(kind string, n, N int) string {
@@ -190,30 +217,57 @@ func footerText(kind string, n, N int) string {
 		return fmt.Sprintf("%d of %d", n, N)
 	case "-_n_-":
 		return fmt.Sprintf("- %d -", n)
+	case "Page_n_of_N":
+		return fmt.Sprintf("Page %d of %d", n, N)
+	case "n/N":
+		return fmt.Sprintf("%d/%d", n, N)
+	case "p._n":
+		return fmt.Sprintf("p. %d", n)
+	case "pg_n":
+		return fmt.Sprintf("pg %d", n)
 	}
-	return ""
+	panic("footer kind " + kind)
 }
 
-// buildDoc lays out one logical document. Every page has five unique body lines; header, footer and the
-// body variant add lines. Lines of a page are listed top-down.
-func buildDoc(P int, hdr, ftr string, body bodyKind, PH float64) *ldoc {
-	d := &ldoc{P: P, PW: 612, PH: PH}
-	topY := func(dist float64) float64 { return PH - fontSz - dist } // baseline y of a line whose top edge is dist below the page top
-	special := 1                                                    // the page on which the rep-band line sits inside the band
+// pageHeights: "letter" = 792 everywhere, "a4" = 842 everywhere, "mixed" = Letter on odd, A4 on even pages.
+func pageHeights(size string, P int) []float64 {
+	o := make([]float64, P)
+	for p := range o {
+		switch {
+		case size == "a4", size == "mixed" && p%2 == 1:
+			o[p] = 842
+		default:
+			o[p] = 792
+		}
+	}
+	return o
+}
+
+// buildDoc lays out one logical document. Every page has five unique body lines; header, page number and the
+// body variant add lines. Marginal lines are placed relative to the nearest edge of their own page. Lines of a
+// page are listed top-down.
+func buildDoc(P int, hdr string, pn pnKind, body bodyKind, size string) *ldoc {
+	d := &ldoc{P: P, PW: 612, PHs: pageHeights(size, P)}
+	special := 1 // the page on which the rep-band line sits inside the band
 	if special >= P {
 		special = P - 1
 	}
 	for p := 0; p < P; p++ {
+		PH := d.PHs[p]
+		topY := func(dist float64) float64 { return PH - fontSz - dist } // baseline y of a line whose top edge is dist below the page top
 		var ls []lline
 		add := func(class, text string, x, y float64) {
 			ls = append(ls, lline{id: fmt.Sprintf("p%d-%s-%d", p+1, class, len(ls)), text: text, x: x, y: y, h: fontSz, class: class, page: p})
 		}
+		if pn.style != "none" && pn.pos == "top" {
+			add("pagenum", footerText(pn.style, p+1, P), ftrX, topY(pnDist))
+		}
 		switch hdr {
 		case "same", "same+sub":
-			add("hdr-same", "Running Title Alpha", hdrX, topY(hdrDist))
+			add("hdr-same", runHdr, hdrX, topY(hdrDist))
 			if hdr == "same+sub" {
 				// a unique line in the band that shares a prefix with the running header (both directions)
-				t := "Running Title Alpha Part " + animals[p]
+				t := runHdr + " Part " + animals[p]
 				if p == 1 {
 					t = "Running Title"
 				}
@@ -231,7 +285,7 @@ func buildDoc(P int, hdr, ftr string, body bodyKind, PH float64) *ldoc {
 			add("hdr-numbered", fmt.Sprintf("Section %d Overview", p+1), hdrX, topY(hdrDist))
 		}
 		if body.name == "rep-band-top" && p == special {
-			add("body-rep-band", "Confidential Draft Zulu", hdrX, topY(62))
+			add("body-rep-band", repLine, hdrX, topY(62))
 		}
 		if body.name == "numeric-near-top" {
 			add("body-num-near", fmt.Sprint(4000+17*p), hdrX, topY(float64(body.off)))
@@ -243,10 +297,12 @@ func buildDoc(P int, hdr, ftr string, body bodyKind, PH float64) *ldoc {
 		}
 		switch body.name {
 		case "repeated":
-			add("body-rep", "Confidential Draft Zulu", hdrX, 500)
+			add("body-rep", repLine, hdrX, 500)
+		case "header-text": // the body happens to contain the running header's text, at the same body position on every page
+			add("body-hdrtext", runHdr, hdrX, 500)
 		case "rep-band-top", "rep-band-bottom":
 			if p != special {
-				add("body-rep-band", "Confidential Draft Zulu", hdrX, 500)
+				add("body-rep-band", repLine, hdrX, 500)
 			}
 		case "numeric":
 			add("body-num", fmt.Sprint(4000+17*p), hdrX, 400)
@@ -259,10 +315,14 @@ func buildDoc(P int, hdr, ftr string, body bodyKind, PH float64) *ldoc {
 			add("body-num-near", fmt.Sprint(4000+17*p), hdrX, float64(body.off))
 		}
 		if body.name == "rep-band-bottom" && p == special {
-			add("body-rep-band", "Confidential Draft Zulu", hdrX, 54)
+			add("body-rep-band", repLine, hdrX, 54)
 		}
-		if ftr != "none" {
-			add("ftr", footerText(ftr, p+1, P), ftrX, ftrY)
+		if body.name == "rep-band-moving" {
+			// the same text inside the bottom band of every page, but 13 pt further up on each page (and right of the page number)
+			add("body-rep-moving", repLine, 300, 59-13*float64(p))
+		}
+		if pn.style != "none" && pn.pos == "bottom" {
+			add("pagenum", footerText(pn.style, p+1, P), ftrX, ftrY)
 		}
 		d.pages = append(d.pages, ls)
 	}
@@ -271,32 +331,57 @@ func buildDoc(P int, hdr, ftr string, body bodyKind, PH float64) *ldoc {
 
 // ---- expectation per text key --------------------------------------------------------------------
 
+// expect counts, for one line text on the requested pages, how many instances exist, how many of them clause 2
+// allows to delete and how many clause 4 requires to delete. Working with counts per text makes the oracle
+// independent of which of several identical lines an output token run stems from.
 type expect struct {
-	may, must bool
-	why       string // signature stem when a deletion is forbidden
-	class     string
+	n, may, must int
+	why          string // signature stem when more instances are deleted than allowed
+	class        string // class of an instance that may not be deleted (else of any instance)
+	mustClass    string
+	mayClass     string
 }
 
-// expectations maps line text -> expectation. Lines with equal text must agree (asserted): this makes the
-// oracle independent of which of several identical lines an output token run stems from.
-func (d *ldoc) expectations(mode string) map[string]expect {
-	m := map[string]expect{}
+func (d *ldoc) expectations(mode string, req map[int]bool) map[string]*expect {
+	m := map[string]*expect{}
 	for _, l := range d.all() {
-		e := expect{may: d.mayDelete(l), must: d.mustDelete(l, mode), why: d.whyNot(l), class: l.class}
-		if e.must && !e.may {
+		if req != nil && !req[l.page] {
+			continue
+		}
+		e := m[l.text]
+		if e == nil {
+			e = &expect{class: l.class}
+			m[l.text] = e
+		}
+		e.n++
+		may, must := d.mayDelete(l), d.mustDelete(l, mode)
+		if must && !may {
 			panic("generator: line must be deleted but may not: " + l.id)
 		}
-		if o, ok := m[l.text]; ok {
-			if o.may != e.may || o.must != e.must {
-				panic("generator: equal texts with different expectations: " + l.text)
+		if may {
+			e.may++
+			e.mayClass = l.class
+		} else {
+			w := d.whyNot(l)
+			if e.why != "" && e.why != w {
+				w = "deleted-unrepeated-line" // same text inside the band on one page and in the body on others
 			}
-			if o.why != e.why {
-				e.why = "deleted-unrepeated-line" // same text inside the band on one page and in the body on others
-			}
+			e.why, e.class = w, l.class
 		}
-		m[l.text] = e
+		if must {
+			e.must++
+			e.mustClass = l.class
+		}
 	}
 	return m
+}
+
+// mayClassOr names the class of the removable instances of a text (outcome labels only).
+func (e *expect) mayClassOr() string {
+	if e.mayClass != "" {
+		return e.mayClass
+	}
+	return e.class
 }
 
 func joinSorted(set map[string]bool) string {
